@@ -623,6 +623,18 @@ public:
             plan["ompl_seed"] = (long)g.range(1, 2000000000);
             plan["repeat_states"] = g.chance(0.2);
             plan["ops"] = c17::genOps(g, o.thorough());
+            // (decided by a stream of its own so that the other plans keep their meaning) a direction-dependent world: Dubins
+            // curves, asymmetric distance - only the routines the library applies to non-metric spaces, no length clauses
+            {
+                sim::Rng gdub(sim::mix(caseSeed, "c17-dubins"));
+                if (G.world.gets("space") == "se2" && gdub.chance(0.35))
+                {
+                    plan["world"]["space"] = "dubins";
+                    plan["world"]["turning_radius"] = (G.world.getd("hi") - G.world.getd("lo")) * gdub.pick(std::vector<double>{0.02, 0.05, 0.12});
+                    plan["ops"] = c17::genOps(gdub, o.thorough(), true);
+                    plan["repeat_states"] = false;
+                }
+            }
             // (drawn last so that earlier plans keep their meaning) a path whose states are all the same state: total length 0
             if (g.chance(0.04))
                 plan["degenerate"] = (long)g.range(2, 5);
